@@ -56,9 +56,9 @@ def base_cfg(rng, var):
                 over={"snowfall_parameters": {"vial_arrangement": "square"}}, initIce="indirect", seed=rng.randint(0, 50), seed_v=7, prog=prog, cnTemp=None, thr=0.9)
 
 
-def reference(cfg, seed):
+def reference(cfg, seed, seed_v=None):
     with impl.quiet():
-        S = fr.build(dict(cfg, seed=seed), storeStates=None)
+        S = fr.build(dict(cfg, seed=seed, seed_v=cfg["seed_v"] if seed_v is None else seed_v), storeStates=None)
         S.run()
     return {k: np.array(v) for k, v in S.stats.items()}
 
@@ -84,10 +84,10 @@ def check(rep, tier):
         if cfg["shape"][2] > 1:
             var = False        # pallets have no shelf term: no random vector
         key = (cfg["arr"], cfg["shape"], var)
-        def ref(s):
-            if (key, s) not in refs:
-                refs[(key, s)] = reference(cfg, s)
-            return refs[(key, s)]
+        def ref(s, sv):
+            if (key, s, sv) not in refs:
+                refs[(key, s, sv)] = reference(cfg, s, sv)
+            return refs[(key, s, sv)]
         store = rng.choice([None, "all", "edge", [0, 2], "uniform_3", "random_2", "corner_random_1"])
         ops, coq_ops, obs = [], [], []
         N = int(np.prod(cfg["shape"]))
@@ -98,8 +98,11 @@ def check(rep, tier):
                     coq_ops.append("RecordRandom %s" % zlit(int(store.split("_")[-1])))
                 nops = rng.randint(1, 8)
                 for oi in range(nops):
-                    o = rng.choice(["seed", "seed", "hshelf", "hint", "build", "run", "run"]) if oi < nops - 1 else "run"
-                    if o == "seed":
+                    o = rng.choice(["seed", "seed", "seedv", "hshelf", "hint", "build", "run", "run"]) if oi < nops - 1 else "run"
+                    if o == "seedv":
+                        # the vial seed is configuration of the NEXT run (separate global numpy stream; not part of the object model)
+                        S.seed_v = rng.choice([7, 8, 9]); ops.append(("seed_v", S.seed_v))
+                    elif o == "seed":
                         s = rng.choice([cfg["seed"], S.seed, rng.randint(0, 50)])
                         S.seed = s; ops.append(("seed", s)); coq_ops.append("SetSeed %s" % zlit(s))
                     elif o == "hshelf":
@@ -128,7 +131,7 @@ def check(rep, tier):
                             obs.append("(%s, MkGen %s %s)" % (shelf, zlit(first_dice[1]), zlit(first_dice[2])))
                         else:
                             obs.append(None)
-                        if not stats_equal(st, ref(S.seed)):
+                        if not stats_equal(st, ref(S.seed, S.seed_v)):
                             rep.violation("history-dependence" + (" random-recording" if isinstance(store, str) and "random" in store else ""),
                                           "statistics of the run after history %s (storeStates=%r, seed %r, s_sigma_rel=%r, %s) differ from a fresh object's run with the same seed"
                                           % (ops, store, S.seed, cfg["k"]["s_sigma_rel"], cfg["shape"]), dict(config=cfg, storeStates=store, history=ops))
